@@ -72,14 +72,14 @@ ICChoices(vs) ==
 Mk(b, hw, x, ic, r) ==
     [bp |-> b, vars |-> BP(b), exo |-> ExoSpec(x.form, x.extra, hw.h), ics |-> ic.ics,
      icform |-> ic.icform, horizon |-> hw.h, where |-> hw.w, reduce |-> r, late |-> hw.late,
-     bmax |-> hw.bmax]
+     bmax |-> hw.bmax, solve |-> TRUE]
 
 (* Initial states are enumerated by quantification (building the set of all configurations  *)
 (* first and normalising it costs TLC far more than exploring it).                          *)
-StartWith(c) == /\ cfg = c /\ phase = S0.phase /\ vlist = S0.vars /\ deco = S0.deco
+StartPlan(p) == /\ plan = p /\ idx = 1 /\ cfg = p[1] /\ phase = S0.phase /\ vlist = S0.vars /\ deco = S0.deco
                 /\ horizon = S0.horizon /\ series = S0.series /\ tz = S0.tz /\ step = S0.step
                 /\ err = S0.err /\ smax = S0.smax
-
+StartWith(c) == StartPlan(<< c >>)
 (* (horizon, placement, late value): the late value is written to the solver attribute after *)
 (* parsing and is larger (h+1, h+2) or smaller (h-1) than the horizon of the block           *)
 (* "both": the solver attribute (h, 0 included) and a MaxTime line with another value: larger *)
@@ -100,22 +100,61 @@ KeepQuick(c) == /\ ExoRejected(c) => (c.ics = << >> \/ (Len(c.ics) > 1 /\ c.icfo
                                  /\ c.late # c.horizon + 1)
                 /\ c.where = "both" => (c.reduce /\ c.icform = "float" /\ (c.ics = << >> \/ Len(c.ics) > 1))
 
+----------------------------------------------------------------------------
+(* Histories of two blocks on ONE solver object.                                             *)
+(* First round: blueprint B4, a list of exactly the needed length, no initial conditions;    *)
+(*   placed in the block (parsed by ParseString or by the constructor; solved or only        *)
+(*   parsed) - nothing is written to the solver, so nothing may survive -, or written to the *)
+(*   solver before the parse / late after it - then the value stays on the solver.           *)
+(* Second round: any blueprint, horizon in its own block / absent / written to the solver    *)
+(*   again (alone, or against a different MaxTime line) / "kept" from the first round        *)
+(*   against a different MaxTime line.                                                       *)
+NoIC == [ics |-> << >>, icform |-> "float"]
+First(w, h, late, solve) ==
+    [Mk("B4", [h |-> h, w |-> w, late |-> late, bmax |-> 0], X("list", 0), NoIC, TRUE) EXCEPT !.solve = solve]
+
+(* first rounds that leave the solver attribute alone (h1 = the first block's own horizon) *)
+FirstsUnset(h1s) == { First("block", h, 0, TRUE) : h \in h1s } \cup { First("block", h, 0, FALSE) : h \in h1s }
+                    \cup { First("ctor", h, 0, TRUE) : h \in h1s }
+(* first rounds after which the solver attribute holds v *)
+FirstsSet(v) == { First("solver", v, 0, TRUE), First("late_parse", v + 1, v, TRUE) }
+
+HW2(hs) == { [h |-> h, w |-> w, late |-> 0, bmax |-> 0] : h \in hs, w \in {"block", "solver"} }
+           \cup { [h |-> 0, w |-> "default", late |-> 0, bmax |-> 0] }
+           \cup { [h |-> h, w |-> "both", late |-> 0, bmax |-> h + 2] : h \in hs }
+ExoPairs == { X("list", 0), X("list", 2), X("list", -1), X("strexpr", 0), X("scalar", 0) }
+ICPairs(vs) == { NoIC, [ics |-> ICAll(vs), icform |-> "float"] }
+
+PairInit(bps, hs, h1s) ==
+    \E b \in bps, x \in ExoPairs :
+        \E ic \in ICPairs(BP(b)) :
+            \/ \E hw \in HW2(hs), h1 \in h1s :
+                  \E c1 \in FirstsUnset({h1}) :
+                      /\ h1 # hw.h
+                      /\ StartPlan(<< c1, Mk(b, hw, x, ic, TRUE) >>)
+            \/ \E h \in hs, d \in {2, -1} :
+                  \E c1 \in FirstsSet(h) :
+                      /\ h + d >= 0
+                      /\ StartPlan(<< c1, Mk(b, [h |-> h, w |-> "kept", late |-> 0, bmax |-> h + d], x, ic, TRUE) >>)
+
 InitQuick ==
-    \E b \in BPs, hw \in HW(0..3), x \in ExoQuick, r \in BOOLEAN :
-        \E ic \in ICChoices(BP(b)) :
-            LET c == Mk(b, hw, x, ic, r) IN KeepQuick(c) /\ StartWith(c)
+    \/ \E b \in BPs, hw \in HW(0..3), x \in ExoQuick, r \in BOOLEAN :
+          \E ic \in ICChoices(BP(b)) :
+              LET c == Mk(b, hw, x, ic, r) IN KeepQuick(c) /\ StartWith(c)
+    \/ PairInit({"B1", "B4"}, 0..3, {0, 2})
 
 InitThorough ==
-    \E b \in BPs, hw \in HW(0..5), x \in ExoThorough, r \in BOOLEAN :
-        \E ic \in ICChoices(BP(b)) :
-            LET c == Mk(b, hw, x, ic, r)
-                keep == (IsLate(c) => (c.reduce /\ c.late # c.horizon + 1)) /\ (c.where = "both" => c.reduce)
-            IN keep /\ StartWith(c)
+    \/ \E b \in BPs, hw \in HW(0..5), x \in ExoThorough, r \in BOOLEAN :
+          \E ic \in ICChoices(BP(b)) :
+              LET c == Mk(b, hw, x, ic, r)
+                  keep == (IsLate(c) => (c.reduce /\ c.late # c.horizon + 1)) /\ (c.where = "both" => c.reduce)
+              IN keep /\ StartWith(c)
+    \/ PairInit(BPs, 0..5, {0, 3})
 
 NoConfigs == {}
 
 ASSUME \A b \in BPs : WellOrdered(AllVars([vars |-> BP(b)]))
 
-Terminal == phase \in {"done", "reject"}
-Emit == Terminal => PrintT(<< "BEH", ToJson([cfg |-> cfg, outcome |-> phase, err |-> err]) >>)
+Terminal == RoundOver /\ idx = Len(plan)
+Emit == Terminal => PrintT(<< "BEH", ToJson([plan |-> plan, outcome |-> phase, err |-> err]) >>)
 =============================================================================
